@@ -224,6 +224,8 @@ func H_C18_noninterference() {
 	px0, _ := plain0.Xml()
 	dec0, _ := NewMapXml([]byte("<r a=\"&lt;\"><b/></r>"))
 	dx0, _ := Map(dec0).Json()
+	sdec0, _ := NewMapXmlSeq([]byte("<r a=\"&lt;&amp;\" p:b=\"&gt;\">&amp;<b/></r>"))
+	sdx0, _ := Map(sdec0).Json()
 	switch which {
 	case 0: // attribute prefix and key case do not affect the sequence codec or JSON
 		SetAttrPrefix([]string{"@", ""}[vChoose(2)])
@@ -259,6 +261,9 @@ func H_C18_noninterference() {
 		dec1, _ := NewMapXml([]byte("<r a=\"&lt;\"><b/></r>"))
 		dx1, _ := Map(dec1).Json()
 		vAssert(string(dx1) == string(dx0), "options: encoder switches do not affect decoding")
+		sdec1, _ := NewMapXmlSeq([]byte("<r a=\"&lt;&amp;\" p:b=\"&gt;\">&amp;<b/></r>"))
+		sdx1, _ := Map(sdec1).Json()
+		vAssert(string(sdx1) == string(sdx0), "options: encoder switches do not affect sequence decoding (text and attribute values)")
 	default:
 		ms1, _ := NewMapXmlSeq(seqDoc)
 		sx1, _ := ms1.Xml()
